@@ -360,6 +360,8 @@ func vfGuard(f func() string) (out string) {
 	return f()
 }
 
+func vfChanCap(ch <-chan Update) int { return cap(ch) }
+
 func vfSeq(f []string) string {
 	kind := f[1]
 	cap, _ := strconv.Atoi(f[2])
@@ -404,8 +406,10 @@ func vfSeq(f []string) string {
 				return m.snapshot()
 			case "sub":
 				b, _ := strconv.Atoi(p[1])
-				subs = append(subs, m.r.Subscribe(SubscribeOptions{BufferSize: b}))
-				return "sub" + strconv.Itoa(len(subs)-1)
+				sub := m.r.Subscribe(SubscribeOptions{BufferSize: b})
+				subs = append(subs, sub)
+				// the channel capacity the implementation chose (its default when BufferSize <= 0), through the public API
+				return "sub" + strconv.Itoa(len(subs)-1) + "/" + strconv.Itoa(vfChanCap(sub.Updates()))
 			case "unsub":
 				k, _ := strconv.Atoi(p[1])
 				if k >= len(subs) {
@@ -1307,7 +1311,11 @@ func vfChurn(f []string) string {
 func vfBulk(f []string) string {
 	kind := f[1]
 	cap, _ := strconv.Atoi(f[2])
-	n, _ := strconv.Atoi(f[3])
+	// "<n>" = n tuples; "+<k>" = k tuples more than the default cap the package exports (so the default is always reached)
+	n, _ := strconv.Atoi(strings.TrimPrefix(f[3], "+"))
+	if strings.HasPrefix(f[3], "+") {
+		n += DefaultMaxSeriesPerMetric
+	}
 	g, _ := strconv.Atoi(f[4])
 	var bks []float64
 	if kind == "h" {
@@ -1354,7 +1362,7 @@ func vfBulk(f []string) string {
 			st = vfFloat(s.Value)
 		}
 	}
-	return fmt.Sprintf("bulk series=%d drops=%s tombs=%d sum=%d count=%s unknown=%s stale=%s", series, d, tombs.Load(), sum, cnt, u, st)
+	return fmt.Sprintf("bulk n=%d dcap=%d series=%d drops=%s tombs=%d sum=%d count=%s unknown=%s stale=%s", n, DefaultMaxSeriesPerMetric, series, d, tombs.Load(), sum, cnt, u, st)
 }
 
 func TestVerifC20(t *testing.T) {
